@@ -552,6 +552,169 @@ def decode_stat(ev):
     return "%s => %s" % (kind, ret if ret.startswith("err") or ret == "ok" else ret.split(":")[0])
 
 
+# =========================================================================== C11
+@plan("C11")
+def c11(tier, seed):
+    run = Run("C11", tier, seed)
+    rng = random.Random(seed)
+    run.model_check("MCTables", workers=4)          # Dequant / QuantUpdate / IntraDc lemmas on the spec
+    # (i) the inverse_rle hook: exact coefficient values, exhaustive over quantizer x level, cycling positions
+    hook = []
+    pos = 0
+    for q in range(1, 32):
+        for lev in range(1, 1024):
+            for sgn in (1, -1):
+                pos = (pos + 7) % 63
+                hook.append({"op": "rle", "q": q, "dc": -1, "ev": [[pos, sgn * lev]]})
+    for p_ in range(0, 64):
+        for (q, lev) in [(1, 1), (2, -1), (5, 12), (8, -127), (16, 64), (31, 33), (31, -1023), (30, 1023)]:
+            hook.append({"op": "rle", "q": q, "dc": -1, "ev": [[p_, lev]]})
+            if p_ < 63:
+                hook.append({"op": "rle", "q": q, "dc": 77, "ev": [[p_, lev]]})
+    for dc in range(0, 256):
+        hook.append({"op": "rle", "q": rng.randrange(1, 32), "dc": dc, "ev": []})
+        hook.append({"op": "rle", "q": rng.randrange(1, 32), "dc": dc, "ev": [[rng.randrange(0, 30), rng.choice([-3, 1, 40])]]})
+    for i in range(3000 if tier == "quick" else 60000):          # multi-event blocks
+        n = rng.randrange(2, 20)
+        budget = 63
+        evs = []
+        for k in range(n):
+            r_ = rng.randrange(0, max(1, min(8, budget - (n - k))))
+            budget -= r_ + 1
+            if budget < 0:
+                break
+            evs.append([r_, rng.choice([-1, 1]) * rng.choice([1, 2, 3, 17, 127, 600, 1023])])
+        hook.append({"op": "rle", "q": rng.randrange(1, 32), "dc": rng.choice([-1, 5, 255]), "ev": evs})
+    run.drive_and_validate(hook, "TraceRecon", sample=2)
+    # (ii) the property's own route: 16x16 pictures carrying one coefficient per block over a DC, decoded and compared
+    H = Hist()
+    qs = [1, 2, 3, 8, 15, 16, 30, 31] if tier == "quick" else list(range(1, 32))
+    items = []      # (ver, q, level, form)
+    for q in qs:
+        for lev in range(1, 128):
+            for sgn in (1, -1):
+                items.append((0, q, sgn * lev, 1))
+        for lev in range(1, 64):
+            for sgn in (1, -1):
+                items.append((1, q, sgn * lev, 1))
+        for lev in range(1, 1024):
+            for sgn in (1, -1):
+                items.append((1, q, sgn * lev, 2))
+        for (last, run_, lev) in short_events():
+            if last == 1:
+                items.append((rng.randrange(2), q, lev, 0, run_))
+                items.append((rng.randrange(2), q, -lev, 0, run_))
+    groups = {}
+    for it in items:
+        groups.setdefault((it[0], it[1]), []).append(it)
+    pos = 0
+    for (ver, q), its in groups.items():
+        for i in range(0, len(its), 6):
+            six = (its[i:i + 6] + its[:6])[:6]
+            blocks = []
+            for it in six:
+                pos = (pos + 5) % 62
+                run_ = it[4] if len(it) > 4 else pos
+                blocks.append({"dc": rng.choice([16, 128 + 1, 200, 64]), "ev": [[1, run_, it[2], it[3]]]})
+            H.new()
+            H.decode(one_mb_intra(rng, ver, q, 15, 3, blocks=blocks))
+    # quantizer updates: all 31 x 4, observed through a coefficient in the second macroblock
+    for q in range(1, 32):
+        for dq in (-2, -1, 1, 2):
+            ver = q % 2
+            hdr = pg.header("sor", "I", tr=0, q=q, w=32, h=16, ver=ver)
+            p = dict(hdr)
+            mb1 = pg.coded_mb(rng, 4, ver == 1, cbpc=0, cbpy=0, dq=dq, big=False)
+            mb2 = pg.coded_mb(rng, 3, ver == 1, cbpc=3, cbpy=15, big=False)
+            for b in mb2["b"]:
+                b["ev"] = [[1, rng.randrange(0, 10), rng.choice([-9, 7, 12]), 1]]
+            p["mbs"] = [mb1, mb2]
+            H.new()
+            H.decode(p)
+    # INTRADC: every valid code decodes to 8 x code (255 -> 1024); codes 0 and 128 must be rejected
+    codes = [c for c in range(1, 256) if c != 128]
+    for i in range(0, len(codes), 6):
+        grp = (codes[i:i + 6] + codes[:6])[:6]
+        H.new()
+        H.decode(one_mb_intra(rng, i % 2, rng.randrange(1, 32), 0, 0, blocks=[{"dc": c, "ev": []} for c in grp]))
+    for dc in (0, 128):
+        for bi in range(6):
+            blocks = [{"dc": 77, "ev": []} for _ in range(6)]
+            blocks[bi]["dc"] = dc
+            H.new()
+            H.decode(one_mb_intra(rng, bi % 2, 5, 0, 0, blocks=blocks), opaque=True, expect="err", why="forbidden-intradc-%d" % dc)
+    npics = sum(1 for c in H.cmds if c["op"] == "decode")
+    enc = run.encode(H.cmds)
+    run.drive_and_validate(enc, "TraceDecoder", group=hkey, sample=2)
+    run.evaluations = len(hook) + npics
+    run.nontrivial = len(hook) + npics
+    run.exhaustive = tier == "thorough"
+    run.notes["hook_events"] = len(hook)
+    run.notes["pictures"] = npics
+    run.notes["picture_route_quantizers"] = qs
+    return run.finish(
+        rule="hook route (exhaustive in both tiers): inverse_rle for all 31 quantizers x all levels +-1..1023 at cycling zig-zag "
+             "positions, 64 positions x 8 representative (Q, L), all 256 INTRADC codes (0 and 128 must be refused), random multi-"
+             "event blocks - exact coefficient values compared with Recon!Coefs; picture route: for quantizers %s every level in "
+             "the 8-bit (+-1..127), 7-bit (+-1..63) and 11-bit (+-1..1023) escape forms and every LAST=1 Table-16 code, one per "
+             "block over a DC, in 16x16 pictures encoded by TLC and compared sample by sample; all 31 x 4 quantizer updates; all "
+             "INTRADC codes; pictures with INTRADC 0 / 128 must be rejected" % qs)
+
+
+# =========================================================================== C12
+@plan("C12")
+def c12(tier, seed):
+    run = Run("C12", tier, seed)
+    rng = random.Random(seed)
+    run.model_check("MCTables", workers=4)          # WrapMv / inversion formulation / ChromaMv / Median3 lemmas, exhaustive
+    hook = [{"op": "mv", "pairs": [[p_, d] for p_ in range(-32, 32) for d in range(-32, 32)]},
+            {"op": "chroma_mv", "sums": list(range(-128, 125))}]
+    rv = lambda: [rng.randrange(-32, 32), rng.randrange(-32, 32)]
+    for mbw in (1, 2, 3, 4):
+        for mb in range(0, 3 * mbw):
+            for blk in range(4):
+                for rep in range(6 if tier == "quick" else 60):
+                    mvs = []
+                    for i in range(mb):
+                        kind = rng.choice(["inter", "4v", "zero"])
+                        if kind == "inter":
+                            v = rv(); mvs.append([v, v, v, v])
+                        elif kind == "4v":
+                            mvs.append([rv(), rv(), rv(), rv()])
+                        else:
+                            mvs.append([[0, 0]] * 4)       # intra or not-coded neighbour
+                    hook.append({"op": "cand", "mbw": mbw, "mvs": mvs, "cur": [rv(), rv(), rv(), rv()], "blk": blk})
+    run.drive_and_validate(hook, "TraceRecon", sample=2)
+    # picture route: every macroblock position of a grid reached by chains of uniformly drawn differentials
+    H = Hist()
+    for i in range(40 if tier == "quick" else 600):
+        w, h = rng.choice([(48, 48), (16, 64), (64, 16), (33, 33), (80, 32)])
+        ver = i % 2
+        H.new()
+        H.decode(pg.intra_picture(rng, sor_hdr(rng, "I", 0, w, h, ver), big=False, shape="dense"))
+        for k in range(2):
+            p = pg.inter_picture(rng, sor_hdr(rng, "P", k + 1, w, h, ver), big=False, shape="sparse", mix=[1, 5, 1, 5, 1, 0, 2])
+            for m in p["mbs"]:
+                if m["k"] == "mb":
+                    m["mvd"] = [[rng.randrange(-32, 32), rng.randrange(-32, 32)] for _ in m["mvd"]]
+            H.decode(p)
+    npics = sum(1 for c in H.cmds if c["op"] == "decode")
+    enc = run.encode(H.cmds)
+    run.drive_and_validate(enc, "TraceDecoder", group=hkey, sample=1)
+    run.evaluations = 4096 + 253 + len(hook) - 2 + npics
+    run.nontrivial = run.evaluations
+    run.exhaustive = True
+    run.notes["candidate_configurations"] = len(hook) - 2
+    run.notes["pictures"] = npics
+    return run.finish(
+        rule="exhaustive: all 64 x 64 (predictor, differential) pairs through mv_decode (both components), all 253 four-vector sums "
+             "-128..124 through the chroma rounding; predict_candidate for every macroblock position of grids 1..4 wide x 3 rows x "
+             "block 0..3 with neighbours drawn from {one-vector, four-vector, zero (intra / not coded)}; and P pictures on 3x3, 1x4, "
+             "4x1, 5x2 grids whose differentials are uniform over -16..15.5, validated in pixel mode; the spec-side lemmas (wrap "
+             "lands in range and is congruent; inversion formulation = modular formulation; chroma rounding odd-symmetric) are "
+             "checked exhaustively by TLC in MCTables")
+
+
 # =========================================================================== C10
 @plan("C10")
 def c10(tier, seed):
